@@ -1,3 +1,4 @@
+import RossModel.Spec.Frames
 import RossModel.Lemmas.ByteLink
 import RossModel.Lemmas.Usart
 import RossModel.Lemmas.Can
@@ -50,8 +51,7 @@ theorem specFrames_wf (p : Packet) (hn : p.data.length â‰¤ 28672) :
 theorem normKind_of_consistent (f : Frame) (h : f.idLast = f.start) : normKind f = f := by
   cases f; simp_all [normKind]
 
-/-- the USART bodies a packet puts on the wire -/
-def usartBodies (p : Packet) : List (List UInt8) := (specFrames p).map fun f => Cobs.encode (usartBody f)
+
 
 theorem usartBodies_decode (p : Packet) (hn : p.data.length â‰¤ 28672) :
     (usartBodies p).map fromUsart = (specFrames p).map .ok := by
@@ -132,9 +132,7 @@ theorem specFrames_canCanonical (p : Packet) (hn : p.data.length â‰¤ 28672) : âˆ
     rw [this]
     exact framesFrom_canCanonical p _ 0 _ (chunks7_len_le p.data) (by omega) (by omega)
 
-/-- the CAN frames a packet puts on the bus -/
-def canWire (p : Packet) : List CanFrame :=
-  (specFrames p).map fun f => { ext := true, id := layoutId f, rtr := false, dlc := f.dataLen, data := f.data.take f.dataLen }
+
 
 theorem canWire_decode (p : Packet) (hn : p.data.length â‰¤ 28672) :
     (canWire p).map fromCan = (specFrames p).map .ok := by
